@@ -464,7 +464,6 @@ func runFaultCase(t rk.Failer, slot string, src string, span [2]int, name string
 	evid.Case(nontrivialKey, depth > 0, "error-position/"+map[bool]string{true: "load", false: "run"}[load])
 }
 
-
 // runFaultCaseV2 is the v2 counterpart for run-time faults (v2 has no point and only the probe function table).
 func runFaultCaseV2(t rk.Failer, slot string, src string, span [2]int, name string, depth int, key string) {
 	rp := replay{Src: src, Part: "error-v2", Fault: name, Span: span}
